@@ -89,6 +89,9 @@ MScan(shape0, cells, op, ax) ==
    mask is spelled, fv is the fill_value given to the constructor, 0 = none),
    and one operation on it.  Fields by operation:
      id | getdata | getmaskarray | filled (p: fill value, 0 = the array's own)
+     rewrap | refill: b = masked_array(a, fill_value = p) of the already masked a - the mask is kept and the
+        fill value replaced: rewrap is b itself, refill is filled(b)
+     remask: masked_array(a, mask = mask2) of the already masked a - the masks are or-ed (keep_mask)
      neg | mul2 | add sub mul floordiv lt (data2, mask2; form2 "masked" | "plain")
      sum prod min max any all mean count argmin argmax (ax, kd) | cumsum cumprod (ax)
      masked_* (v1, v2, cond)                                                   *)
@@ -102,6 +105,11 @@ MExpected(c) ==
                [] op = "getmaskarray" -> [shape |-> c.shape, cells |-> Plain(c.mask), err |-> FALSE]
                [] op = "filled"       -> [shape |-> c.shape, err |-> FALSE,
                                           cells |-> Plain([j \in DOMAIN c.data |-> IF c.mask[j] = 1 THEN fill ELSE c.data[j]])]
+               [] op = "rewrap"       -> [shape |-> c.shape, cells |-> a, err |-> FALSE]
+               [] op = "refill"       -> [shape |-> c.shape, err |-> FALSE,
+                                          cells |-> Plain([j \in DOMAIN c.data |-> IF c.mask[j] = 1 THEN c.p ELSE c.data[j]])]
+               [] op = "remask"       -> [shape |-> c.shape, err |-> FALSE,
+                                          cells |-> Mk(c.data, [j \in DOMAIN c.mask |-> Or(c.mask[j], c.mask2[j])])]
                [] op \in {"neg", "mul2"} -> [shape |-> c.shape, cells |-> Unary(op, c.data, c.mask), err |-> FALSE]
                [] op \in {"add", "sub", "mul", "floordiv", "lt"} ->
                     [shape |-> c.shape, cells |-> Elementwise(op, c.data, c.mask, c.data2, c.mask2), err |-> FALSE]
@@ -112,5 +120,5 @@ MExpected(c) ==
                                                     IN Mk(DataOf(r), MaskOf(r))]
       kind == IF op \in {"any", "all", "lt", "getmaskarray"} THEN "b" ELSE IF op = "mean" THEN "f" ELSE "i"
   IN [shape |-> res.shape, cells |-> res.cells, err |-> res.err, kind |-> kind, rat |-> op = "mean",
-      plain |-> op \in {"getdata", "getmaskarray", "filled", "count", "argmin", "argmax"}]
+      plain |-> op \in {"getdata", "getmaskarray", "filled", "refill", "count", "argmin", "argmax"}]
 =============================================================================
